@@ -113,7 +113,7 @@ def rnd_history(rnd, nops, zst):
     be = rnd.choice(["mmap", "mmap", "custom", "custom", "mmapfile"])
     p = rnd.choice([1, 2, 3, 8, 64, 4096])
     lay = rnd_layout(rnd, be)
-    prog = [{"op": "init", "a": {"be": be, "p": p, "lay": lay}}]
+    prog = [{"op": "init", "a": {"be": be, "p": p, "lay": lay, "via": rnd.choice(["direct", "insert", "remove", "remove"])}}]
 
     def addr():
         if rnd.random() < 0.85:
